@@ -13,6 +13,7 @@ import (
 	"verif/bmx"
 
 	"github.com/microcosm-cc/bluemonday"
+	"github.com/microcosm-cc/bluemonday/css"
 )
 
 // safeSanitize runs Sanitize and reports a panic as the literal PANIC.
@@ -25,11 +26,19 @@ func safeSanitize(p *bluemonday.Policy, in []byte) (res string) {
 	return bmx.HexField([]byte(p.Sanitize(string(in))))
 }
 
+func b01(b bool) string {
+	if b {
+		return "1"
+	}
+	return "0"
+}
+
 func main() {
 	family := flag.String("family", "tok", "case family")
 	seed := flag.Int64("seed", 1, "PRNG seed")
 	n := flag.Int("n", 1000, "number of cases")
 	out := flag.String("out", "", "output file (default stdout)")
+	work := flag.String("work", "/verif/work", "directory with extractor artefacts")
 	flag.Parse()
 	w := bufio.NewWriter(os.Stdout)
 	if *out != "" {
@@ -76,6 +85,27 @@ func main() {
 				fmt.Fprintf(w, "san %d %s %s\n", pid, bmx.HexField(in), out)
 				i++
 			}
+		}
+	case "hdl":
+		g := bmx.NewCSSGen(r, *work)
+		// per property: the single tokens its real handler accepts
+		all := append(append([]string{}, bmx.CSSValuePool...), g.Vocab...)
+		per := (*n + len(g.Props) - 1) / len(g.Props)
+		for _, prop := range g.Props {
+			h := css.GetDefaultHandler(prop)
+			var accepted []string
+			for _, t := range all {
+				if h(t) {
+					accepted = append(accepted, t)
+				}
+			}
+			for k := 0; k < per; k++ {
+				v := g.Value(accepted)
+				fmt.Fprintf(w, "hdl %s %s %s\n", bmx.HexS(prop), bmx.HexS(v), b01(h(v)))
+			}
+		}
+		for _, v := range all {
+			fmt.Fprintf(w, "hdl %s %s %s\n", bmx.HexS("no-such-property"), bmx.HexS(v), b01(css.GetDefaultHandler("no-such-property")(v)))
 		}
 	default:
 		fmt.Fprintln(os.Stderr, "unknown family")
